@@ -6,6 +6,8 @@
 
 namespace sim {
 
+struct IFile;
+extern std::string g_scratch_dir;
 static const int NHELD = 8;
 static const char *const NAME_POOL[5] = {"", "alpha", "beta", "gamma", "delta"};
 
@@ -166,9 +168,9 @@ template <class Mesh> struct HistRun {
         for (int s = 0; s < m.n(BC); ++s) if (m.slot_live(BC, s) && r.tc[CellHandle(s)] != m.slots[BC][s]) tagbad(KC, s, r.tc[CellHandle(s)], m.slots[BC][s]);
         // positions
         for (int s = 0; s < m.n(BV); ++s) if (m.slot_live(BV, s)) {
-            int n = r.vpos[m.slots[BV][s]];
-            Vec3d want = n == INT_MIN ? Vec3d(0, 0, 0) : Render<Vec3d>::make(n);
-            if (!(M.vertex(VertexHandle(s)) == want)) ctx.fail(ow_props, "position", "vertex slot " + std::to_string(s));
+            Vec3d want = pos_of_code(r.vpos[m.slots[BV][s]]);
+            Vec3d have = M.vertex(VertexHandle(s));
+            if (memcmp(&have[0], &want[0], 8) || memcmp(&have[1], &want[1], 8) || memcmp(&have[2], &want[2], 8)) ctx.fail(ow_props, "position", "vertex slot " + std::to_string(s));
         }
         // client-held properties of this replica
         int ri = -1;
@@ -614,6 +616,18 @@ template <class Mesh> struct HistRun {
     void resync(R &r, int ri);
     bool resynced = false;
     void op_restart(R &r, const Op &q);
+    void op_roundtrip(R &r, const Op &q);
+    void op_fault_load(R &r, const Op &q);
+    void op_sweep(R &r, const Op &q);
+    void op_set_pos(R &r, const Op &q);
+    void op_big(R &r, const Op &q);
+    void op_open_cell(R &r, const Op &q);
+    void io_refresh(R &r, int seed, bool ascii);
+    template <class Dst> std::string compare_loaded(const Dst &d, R &r, bool ascii, bool cells_as_sets);
+    std::string compare_decoded(const struct IFile &f, R &r);
+    int expected_topo_type(const R &r) const;
+    template <class Dst> void fault_load_into(const std::string &image, bool ascii, int variant, const std::string &what, long alloc_fail_at);
+    std::string last_image, fault_what;
     void op_bad(R &r, const Op &q);
 
     void set_owners(const std::string &k, const R &r) {
@@ -630,7 +644,9 @@ template <class Mesh> struct HistRun {
         else if (has("P_")) ow_struct = {"C14"};
         else if (has("FORK") || k == "DESTROY" || k == "USE") { ow_struct = {"C13"}; ow_props.push_back("C13"); }
         else if (k == "COLLAPSE") ow_struct = {"C15"};
-        else if (k == "RESTART") ow_struct = {"C06"};
+        else if (k == "RESTART" || k == "ROUNDTRIP" || k == "BIG" || k == "SET_POS" || k == "OPEN_CELL") ow_struct = {"C06"};
+        else if (k == "FAULT_LOAD") ow_struct = {"C07"};
+        else if (k == "SWEEP") ow_struct = {"C18"};
         else ow_struct = {"C02"};
         if (any_bu_off(r)) { ow_struct.push_back("C12"); ow_props.push_back("C12"); }
     }
@@ -668,6 +684,12 @@ template <class Mesh> struct HistRun {
         else if (k.rfind("FORK", 0) == 0 || k == "DESTROY" || k == "USE") { op_fork(q); }
         else if (k == "COLLAPSE") op_collapse(r, q);
         else if (k == "RESTART") op_restart(r, q);
+        else if (k == "ROUNDTRIP") op_roundtrip(r, q);
+        else if (k == "FAULT_LOAD") op_fault_load(r, q);
+        else if (k == "SWEEP") op_sweep(r, q);
+        else if (k == "SET_POS") op_set_pos(r, q);
+        else if (k == "BIG") op_big(r, q);
+        else if (k == "OPEN_CELL") op_open_cell(r, q);
         else if (k == "OBSERVE") {}
         else throw Inconclusive{"unknown op " + k};
         if (bu_off_before || any_bu_off(rep())) { if (std::find(ow_struct.begin(), ow_struct.end(), "C12") == ow_struct.end()) { ow_struct.push_back("C12"); ow_props.push_back("C12"); } }
